@@ -573,6 +573,15 @@ func casesUciPosition(c *caseCtx) {
 	emit([]string{"position startpos moves g1f3 g8f6 f3g1 f6g8", "ucinewgame", "position fen rnbqkbnr/pppppppp/8/8/8/8/PPPPPPPP/RNBQKBNR w KQkq - 4 3 moves g1f3 g8f6 f3g1 f6g8"})
 	emit([]string{"position startpos moves g1f3 g8f6 f3g1 f6g8", "position startpos", "position startpos moves g1f3 g8f6"})
 	emit([]string{"position fen 8/8/4k3/8/8/4K3/4P3/8 w - - 37 60", "position fen 8/8/4k3/8/8/4K3/4P3/8 w - - 0 1", "position fen 8/8/4k3/8/8/4K3/4P3/8 w - - 0 1 moves e3d3"})
+	// shortened lines whose game is already drawn by rule (the result is recorded when the move is made and is
+	// part of the game the line describes): third occurrence, clock reaching 100, bare minor piece
+	shuffle := "g1f3 g8f6 f3g1 f6g8"
+	rep8 := shuffle + " " + shuffle
+	emit([]string{"position startpos moves " + rep8 + " b1c3 b8c6", "position startpos moves " + rep8 + " b1c3", "position startpos moves " + rep8, "position startpos moves " + rep8 + " e2e4"})
+	emit([]string{"position startpos moves " + rep8 + " g1f3", "position startpos moves " + rep8, "position startpos moves " + shuffle + " g1f3 g8f6 f3g1", "position startpos moves " + rep8})
+	emit([]string{"position fen 4k3/8/8/8/8/8/8/R3K3 w - - 98 70 moves a1a2 e8d8 a2a3", "position fen 4k3/8/8/8/8/8/8/R3K3 w - - 98 70 moves a1a2 e8d8", "position fen 4k3/8/8/8/8/8/8/R3K3 w - - 98 70 moves a1a2 e8d8 a2a4", "position fen 4k3/8/8/8/8/8/8/R3K3 w - - 98 70 moves a1a2"})
+	emit([]string{"position fen 4k3/8/8/8/3n4/8/3R4/4K3 b - - 0 1 moves e8e7 d2d4 e7e6", "position fen 4k3/8/8/8/3n4/8/3R4/4K3 b - - 0 1 moves e8e7 d2d4", "position fen 4k3/8/8/8/3n4/8/3R4/4K3 b - - 0 1 moves e8e7 d2d4 e7f6", "position fen 4k3/8/8/8/3n4/8/3R4/4K3 b - - 0 1 moves e8e7"})
+	emit([]string{"position fen 4k3/8/8/8/3b4/8/3R4/4K3 b - - 0 1 moves d4f2 e1f2 e8e7 f2e2", "position fen 4k3/8/8/8/3b4/8/3R4/4K3 b - - 0 1 moves d4f2 e1f2 e8e7", "position fen 4k3/8/8/8/3b4/8/3R4/4K3 b - - 0 1 moves d4f2 e1f2"})
 	for g := 0; g < c.scale(60, 1500); g++ {
 		// one game, sent as a GUI would: growing move lists, occasional repeats, shortenings, new games
 		start := "startpos"
